@@ -761,7 +761,21 @@ func c16BlackBox(c *fw.Ctx, r *rand.Rand, idx int) {
 				c.Violate(key, "go infinite followed by %q answered %d times, %d expected: %s", follow, n, want, transcript())
 			}
 		case 4:
-			send(malformed[r.Intn(len(malformed))])
+			line := malformed[r.Intn(len(malformed))]
+			send(line)
+			if strings.HasPrefix(strings.TrimSpace(strings.ToLower(line)), "go") {
+				// some of the odd lines are searches after all: close the exchange so that its answer is not
+				// mistaken for the next one's
+				send("stop")
+				for k := 0; k < 2; k++ {
+					m := send("isready")
+					if !wait(m, func(l string) bool { return l == "readyok" }) {
+						c.Violate("driver:no-readyok", "binary does not answer isready: %s", transcript())
+						ok = false
+						break
+					}
+				}
+			}
 		default:
 			m := send("isready")
 			if !wait(m, func(l string) bool { return l == "readyok" }) {
